@@ -1,5 +1,5 @@
 (* C01 - DWT analysis equals PyWavelets.  Statements only; proofs are in Proofs/. *)
-From PW Require Import Base.Ops Base.Sum Base.Sig Base.Tensor Model.Dwt Spec.Line Proofs.DwtNF Proofs.C01Proofs Proofs.C01Proofs2D.
+From PW Require Import Base.Ops Base.Sum Base.Sig Base.Tensor Model.Dwt Spec.Line Proofs.DwtNF Proofs.C01Proofs Proofs.C01Proofs2D Proofs.Per2D.
 
 (* One level, filtering along the last axis (the whole of the 1-D transform's level, and the row pass of the 2-D one),
    modes zero / symmetric / periodic for every length >= 1, reflect whenever the code does not raise:
@@ -58,6 +58,24 @@ Theorem C01_level_2d :
            = pywt_dwt2 Op mode Lr (dsel dr0 dr1 (b/2)) Lc (dsel dc0 dc1 (b mod 2)) (tH x) (tW x) (fun p q => tf x n c p q) i j).
 Proof. exact @AFB2D_pywt. Qed.
 Print Assumptions C01_level_2d.
+
+(* the same in periodization mode (odd sizes: duplicated last sample), under the guard filter length <= even length of each axis *)
+Theorem C01_level_2d_per :
+  forall (R:Type) (Op:Ops R) (Rth:RingOk Op) (x:@ten R) Lr dr0 dr1 Lc dc0 dc1,
+  2 <= Lr -> Lr mod 2 = 0 -> Lr <= even_len (tW x) -> 2 <= Lc -> Lc mod 2 = 0 -> Lc <= even_len (tH x) ->
+  1 <= tW x -> 1 <= tH x -> 0 < tC x ->
+  is_ok (AFB2D_fwd Op x Lr (rev_filt Lr dr0) (rev_filt Lr dr1) Lc (rev_filt Lc dc0) (rev_filt Lc dc1) M_PER)
+    (fun r => let '(low, highs) := r in
+       let H' := even_len (tH x) / 2 in let W' := even_len (tW x) / 2 in
+       tN low = tN x /\ tC low = tC x /\ tH low = H' /\ tW low = W' /\
+       tN highs = tN x /\ tC highs = 3 * tC x /\ tH highs = H' /\ tW highs = W' /\
+       forall n c i j, 0 <= c < tC x -> 0 <= i < H' -> 0 <= j < W' ->
+         tf low n c i j = pywt_dwt2_per Op Lr dr0 Lc dc0 (tH x) (tW x) (fun p q => tf x n c p q) i j /\
+         forall b, 1 <= b < 4 ->
+           tf highs n (3*c + (b-1)) i j
+           = pywt_dwt2_per Op Lr (dsel dr0 dr1 (b/2)) Lc (dsel dc0 dc1 (b mod 2)) (tH x) (tW x) (fun p q => tf x n c p q) i j).
+Proof. exact @AFB2D_pywt_per. Qed.
+Print Assumptions C01_level_2d_per.
 
 (* The guard is necessary: below the filter length the code (single fold) differs from PyWavelets.
    Witness: length 2, L = 4, dec = (1,2,3,4): the model (which the correspondence check ties to the code)
